@@ -131,6 +131,8 @@ static constexpr int MAXT = 8;
 static std::atomic<int> done_cnt[MAXT];      // completed log calls per thread (0 = main)
 static std::atomic<int> phase_done[MAXT];    // the thread has logged its programme
 static std::atomic<int> go_sig[MAXT];        // tsig / texit order for thread t (-1 = exit)
+static std::atomic<int> quiesce{0};           // `c` threads stop logging (before a path that runs static destructors)
+static std::atomic<int> quiet[MAXT];          // … and have acknowledged
 static int report_fd = -1;
 static quill::Logger* logger = nullptr;
 static std::string log_path;
@@ -235,11 +237,12 @@ static void thread_main(int t, ThreadSpec spec)
   if (spec.mode == 'c')
   {
     phase_done[t].store(1);
-    for (int i = 0; i < spec.n; ++i)
+    for (int i = 0; i < spec.n && !quiesce.load(); ++i)
     {
       log_one(t);
       std::this_thread::sleep_for(std::chrono::microseconds{100});
     }
+    quiet[t].store(1);
     for (;;) pause();
   }
   for (int i = 0; i < spec.n; ++i) log_one(t);
@@ -301,6 +304,18 @@ static int run(Case const& c, std::string const& scratch, int fd)
       thr[i] = new std::thread(thread_main, static_cast<int>(i) + 1, c.threads[i]);
   };
 
+  // a thread that is still inside a log call while exit() runs the static destructors races with the destruction of
+  // the library's singletons (true of any exit() in a threaded program): the `c` threads log through stop()/start()
+  // and through crashes, but are told to pause before a path that ends in exit()
+  auto quiesce_threads = [&]()
+  {
+    quiesce.store(1);
+    for (size_t i = 0; i < c.threads.size(); ++i)
+      if (c.threads[i].mode == 'c' && threads_started)
+        while (!quiet[i + 1].load()) std::this_thread::sleep_for(std::chrono::microseconds{100});
+  };
+  auto graceful = [](int sg) { return sg == SIGINT || sg == SIGTERM; };
+
   int k = 0;
   for (auto const& op : c.script)
   {
@@ -320,13 +335,14 @@ static int run(Case const& c, std::string const& scratch, int fd)
     }
     else if (op == "X")
     {
+      bool was_running = quill::Backend::is_running();
       snap(k);
       quill::Backend::stop();
       std::vector<int> m;
       bool ok = scan_file(m);
       std::string s = "STOPSCAN " + std::to_string(k) + " m=";
       for (size_t t = 0; t < m.size(); ++t) s += (t ? "," : "") + std::to_string(m[t]);
-      report("%s ok=%d\n", s.c_str(), ok ? 1 : 0);
+      report("%s ok=%d running=%d\n", s.c_str(), ok ? 1 : 0, was_running ? 1 : 0);
     }
     else if (op == "Q")
     {
@@ -346,6 +362,7 @@ static int run(Case const& c, std::string const& scratch, int fd)
       auto parts = split(op, ':');
       int sg = sig_num(parts[1]);
       std::string how = parts.size() > 2 ? parts[2] : "raise";
+      if (graceful(sg)) quiesce_threads();
       snap(k);
       if (how == "raise") raise(sg);
       else if (how == "kill") { kill(getpid(), sg); std::this_thread::sleep_for(std::chrono::milliseconds{20}); }
@@ -356,6 +373,7 @@ static int run(Case const& c, std::string const& scratch, int fd)
     {
       auto parts = split(op, ':');
       int t = atoi(parts[1].c_str());
+      if (graceful(sig_num(parts[2]))) quiesce_threads();
       snap(k);
       go_sig[t].store(sig_num(parts[2]));
       while (go_sig[t].load() != 0) std::this_thread::sleep_for(std::chrono::microseconds{200});   // parked unless the raise returns
@@ -363,6 +381,7 @@ static int run(Case const& c, std::string const& scratch, int fd)
     else if (op.rfind("texit:", 0) == 0)
     {
       int t = atoi(op.c_str() + 6);
+      quiesce_threads();
       snap(k);
       go_sig[t].store(-1);
       for (;;) pause();
@@ -376,9 +395,10 @@ static int run(Case const& c, std::string const& scratch, int fd)
       report("CONT %d\n", k);
     }
     else if (op == "park") { for (;;) pause(); }
-    else if (op == "ret") { snap(k); report("END %d\n", k); return 0; }
-    else if (op == "exit") { snap(k); report("END %d\n", k); std::exit(0); }
+    else if (op == "ret") { quiesce_threads(); snap(k); report("END %d\n", k); return 0; }
+    else if (op == "exit") { quiesce_threads(); snap(k); report("END %d\n", k); std::exit(0); }
   }
+  quiesce_threads();
   snap(k + 1);
   report("END %d\n", k + 1);
   return 0;
@@ -443,6 +463,7 @@ int main(int argc, char** argv)
   std::vector<Result> results(cases.size());
   std::vector<Running> running;
   size_t next = 0;
+  int n_hung = 0;
   fflush(stdout);
   while (next < cases.size() || !running.empty())
   {
@@ -488,10 +509,13 @@ int main(int argc, char** argv)
         continue;
       }
       double el = std::chrono::duration<double>(Clock::now() - r.t0).count();
-      if (!r.killed && el > cases[r.idx].limit)
+      // once two cases have hung the verdict is settled: do not spend the full limit on every further one
+      double lim = (n_hung >= 2 && cases[r.idx].limit > 10) ? 10 : cases[r.idx].limit;
+      if (!r.killed && el > lim)
       {
         kill(r.pid, SIGKILL);
         r.killed = true;
+        ++n_hung;
       }
       ++i;
     }
@@ -520,12 +544,14 @@ int main(int argc, char** argv)
       if (w == "SNAP") { std::string v; is >> v; last_snap = ints(v.substr(2)); snaps[k] = last_snap; }
       else if (w == "STOPSCAN")
       {
-        std::string v, okf;
-        is >> v >> okf;
+        std::string v, okf, runf;
+        is >> v >> okf >> runf;
         std::vector<int> m = ints(v.substr(2));
         std::vector<int> const& sn = snaps[k];
         bool ok = (okf == "ok=1") && m.size() == sn.size();
-        for (size_t t = 0; ok && t < m.size(); ++t) ok = m[t] >= sn[t];
+        // a stop() of a running backend must have written everything completed before it was called; a redundant
+        // stop() has no backend thread to write anything (order and uniqueness are still checked)
+        for (size_t t = 0; ok && runf == "running=1" && t < m.size(); ++t) ok = m[t] >= sn[t];
         if (!ok)
         {
           stops_ok = false;
@@ -688,6 +714,15 @@ int main(int argc, char** argv)
     {
       printf("ORACLE case=%s %s\n", c.id.c_str(), o.c_str());
       ++n_oracle;
+    }
+    if (!oracle.empty())
+    {
+      // what the child wrote to stderr (the library's own allocation notices left out), for the replay file
+      std::ifstream ein(scratch + "/c" + c.id + ".err");
+      std::string ln, all;
+      while (std::getline(ein, ln))
+        if (ln.find("Allocated a new SPSC queue") == std::string::npos && all.size() < 600) all += ln + " | ";
+      if (!all.empty()) printf("STDERR case=%s %s\n", c.id.c_str(), all.c_str());
     }
   }
   printf("STATS cases=%zu oracle=%zu\n", cases.size(), n_oracle);
